@@ -1065,4 +1065,166 @@ Proof.
       intros u. cbn. destruct (Nat.eq_dec u t) as [->|N]; [|now rewrite upd_other].
       rewrite upd_same, Hs. reflexivity.
 Qed.
+
+Lemma chain_ok_ext2 (m1 m2 : kmem) a l :
+  (forall n, n = a \/ In n (map snd l) -> nnext m2 n = nnext m1 n) ->
+  qtail m2 0%nat = qtail m1 0%nat -> chain_ok m1 a l -> chain_ok m2 a l.
+Proof.
+  intros H E2. revert a H. induction l as [|[u n] r IH]; intros a H; cbn.
+  - rewrite E2, (H a) by auto. tauto.
+  - rewrite (H a) by auto. intros [H1 H2]. split; [exact H1|]. apply IH; [|exact H2].
+    intros n' [->|Hn]; apply H; cbn; auto.
+Qed.
+
+Lemma invN_frame2 x' :
+  qhead (mem (base x')) = qhead m -> qtail (mem (base x')) 0%nat = qtail m 0%nat -> gq x' = gq x ->
+  (forall n, In n (chain x) -> nnext (mem (base x')) n = nnext m n /\ ndata (mem (base x')) n = ndata m n) ->
+  (forall u, u <> t -> priv x' u = priv x u) ->
+  (forall n, In n (priv x' t) <-> In n (priv x t)) -> NoDup (priv x' t) ->
+  InvN x'.
+Proof.
+  intros Eh Et Eq Hc Hp Hpt Hnd. pose proof (I_N x HI) as N.
+  assert (Ec : chain x' = chain x) by (unfold chain; rewrite Eh, Eq; reflexivity).
+  assert (Hin : forall u n, In n (priv x' u) <-> In n (priv x u)).
+  { intros u n. destruct (Nat.eq_dec u t) as [->|Nu]; [apply Hpt|rewrite (Hp u Nu); tauto]. }
+  destruct N. constructor; rewrite ?Ec, ?Eq, ?Eh; auto.
+  - apply (chain_ok_ext2 m); [|exact Et|exact I_chain0].
+    intros n Hn. apply Hc. unfold chain. destruct Hn as [->|Hn]; cbn; auto.
+  - intros u n Hu. destruct (Hc n) as [_ ->]; [|apply I_gq_ent0; exact Hu].
+    unfold chain. right. apply (in_map snd) in Hu. exact Hu.
+  - intros u n Hn. apply Hin in Hn. apply (I_priv_nz0 u n Hn).
+  - intros u. destruct (Nat.eq_dec u t) as [->|Nu]; [exact Hnd|rewrite (Hp u Nu); auto].
+  - intros a b n Hab Ha Hb. apply Hin in Ha. apply Hin in Hb. apply (I_priv_disj0 a b n Hab Ha Hb).
+  - intros u n Hn. apply Hin in Hn. apply (I_priv_chain0 u n Hn).
+Qed.
+
+(* facts about private nodes *)
+Lemma priv_fnode u : fnode m u <> O -> In (fnode m u) (priv x u).
+Proof.
+  intros H. unfold priv. destruct (Nat.eqb_spec (fnode m u) 0); [contradiction|]. cbn. auto.
+Qed.
+Lemma priv_extra u n : In n (extra (stk (base x) u)) -> In n (priv x u).
+Proof. intros H. unfold priv. apply in_or_app. auto. Qed.
+Lemma priv_other_ne u n n' : u <> t -> In n (priv x t) -> In n' (priv x u) -> n' <> n.
+Proof. intros Hu H1 H2 ->. apply (I_priv_disj x (I_N x HI) t u n); auto. Qed.
+Lemma priv_chain_ne n n' : In n (priv x t) -> In n' (chain x) -> n' <> n.
+Proof. intros H1 H2 ->. apply (I_priv_chain x (I_N x HI) t n); auto. Qed.
+Lemma qhead_in_chain : In (qhead m 0) (chain x).
+Proof. unfold chain. cbn. auto. Qed.
+
+Lemma step_WfData p k :
+  stk (base x) t = stk_of t (PW WfData p k) -> L (view_of x t) (PW WfData p k) -> Inv (gstep x t).
+Proof.
+  intros Hs HL. gred Hs. cbn.
+  destruct HL as ((Hc & Hh & Hr & Hf) & Hl). cbn in Hh, Hr, Hf.
+  assert (Hfn : fnode m t <> O) by apply Hc.
+  pose proof (priv_fnode t Hfn) as Hpn.
+  set (n := fnode m t) in *.
+  set (x' := mkI _ _ _ _ _ _ _).
+  constructor.
+  - intros u. destruct (Nat.eq_dec u t) as [->|N].
+    + exists (PW (WfNext n) p k). split; [cbn; apply upd_same|]. split.
+      * revert Hc Hl. unfold L, Lw, prelink, calm, done_log. subst x'. vw. cbn. tauto.
+      * cbn. apply upd_same.
+    + revert u N. apply others_ok; [stk_other|view_other|].
+      intros u q Hu Hq HLq HXq.
+      assert (Hex : forall n', In n' (extra (stk (base x) u)) -> n' <> n).
+      { intros n' Hn'. apply (priv_other_ne u n n' Hu Hpn). apply priv_extra. exact Hn'. }
+      xcases q; try exact HXq; revert HXq; unfold X, Xk; cbn [x' base mem set_fnode set_ndata ndata nnext qhead].
+      * rewrite upd_other; [tauto|]. apply Hex. rewrite Hq. cbn. auto.
+      * rewrite upd_other; [tauto|]. apply Hex. rewrite Hq. cbn. auto.
+      * intros (A & B). split; [exact A|]. rewrite upd_other; [exact B|].
+        apply (priv_chain_ne n _ Hpn). rewrite A. apply qhead_in_chain.
+      * rewrite upd_other; [tauto|]. apply Hex. rewrite Hq. cbn. auto.
+  - apply (I_slots x HI).
+  - apply debt_k_frame; [reflexivity|stk_other|nodebt Hs].
+  - apply (invC_frame x); try reflexivity. apply (I_C x HI).
+  - apply invN_frame2; try reflexivity.
+    + intros n' Hn'. cbn. split; [reflexivity|]. apply upd_other. apply (priv_chain_ne n n' Hpn Hn').
+    + intros u Hu. unfold priv. cbn. rewrite !upd_other by exact Hu. reflexivity.
+    + intros n'. unfold priv. cbn. rewrite !upd_same, Hs. cbn.
+      fold n. destruct (Nat.eqb_spec n 0); [contradiction|]. cbn. tauto.
+    + unfold priv. cbn. rewrite !upd_same. cbn. constructor; [intros []|constructor].
+Qed.
+
+Lemma pred_of_in a l u b : pred_of a l u = Some b -> b = a \/ In b (map snd l).
+Proof.
+  revert a. induction l as [|[w n] r IH]; intros a; cbn; [discriminate|].
+  destruct (Nat.eqb w u); [intros [= ->]; auto|]. intros H. apply IH in H. destruct H as [->|H]; auto.
+Qed.
+
+Lemma pred_in_chain u b : pred_of (qhead m 0) (gq x) u = Some b -> In b (chain x).
+Proof. intros H. apply pred_of_in in H. unfold chain. cbn. destruct H; auto. Qed.
+
+Lemma step_WfNext n p k :
+  stk (base x) t = stk_of t (PW (WfNext n) p k) -> L (view_of x t) (PW (WfNext n) p k) ->
+  X x t (PW (WfNext n) p k) -> Inv (gstep x t).
+Proof.
+  intros Hs HL HX. gred Hs. cbn. cbn in HX.
+  assert (Hpn : In n (priv x t)) by (apply priv_extra; rewrite Hs; cbn; auto).
+  set (x' := mkI _ _ _ _ _ _ _).
+  constructor.
+  - intros u. destruct (Nat.eq_dec u t) as [->|N].
+    + exists (PW (WfXchg n) p k). split; [cbn; apply upd_same|]. split; [exact HL|].
+      cbn. rewrite upd_same. auto.
+    + revert u N. apply others_ok; [stk_other|view_other|].
+      intros u q Hu Hq HLq HXq.
+      xcases q; try exact HXq; revert HXq; unfold X, Xk; cbn [x' base mem set_nnext ndata nnext qhead].
+      * rewrite upd_other; [tauto|]. apply (priv_other_ne u n _ Hu Hpn). apply priv_extra.
+        rewrite Hq. cbn. auto.
+      * intros (A & B & C). rewrite upd_other; [tauto|]. apply (priv_chain_ne n _ Hpn).
+        apply (pred_in_chain u). exact A.
+      * intros (A & B & C). rewrite upd_other; [tauto|]. apply (priv_chain_ne n _ Hpn).
+        rewrite B. apply qhead_in_chain.
+  - apply (I_slots x HI).
+  - apply debt_k_frame; [reflexivity|stk_other|nodebt Hs].
+  - apply (invC_frame x); try reflexivity. apply (I_C x HI).
+  - apply invN_frame2; try reflexivity.
+    + intros n' Hn'. cbn. split; [|reflexivity]. apply upd_other. apply (priv_chain_ne n n' Hpn Hn').
+    + intros u Hu. unfold priv. cbn. rewrite !upd_other by exact Hu. reflexivity.
+    + intros n'. unfold priv. cbn. rewrite !upd_same, Hs. cbn. tauto.
+    + unfold priv. cbn. rewrite !upd_same. cbn. pose proof (I_priv_nd x (I_N x HI) t) as ND.
+      unfold priv in ND. rewrite Hs in ND. exact ND.
+Qed.
+
+Lemma pred_of_app a l l' u b : pred_of a l u = Some b -> pred_of a (l ++ l') u = Some b.
+Proof.
+  revert a. induction l as [|[w n] r IH]; intros a; cbn; [discriminate|].
+  destruct (Nat.eqb w u); auto.
+Qed.
+
+Lemma pred_of_snoc (mm : kmem) a l u n :
+  chain_ok mm a l -> ~ In u (map fst l) -> pred_of a (l ++ [(u, n)]) u = Some (qtail mm 0%nat).
+Proof.
+  revert a. induction l as [|[w n'] r IH]; intros a; cbn.
+  - intros [_ ->] _. now rewrite Nat.eqb_refl.
+  - intros [_ H] Hn. destruct (Nat.eqb_spec w u); [exfalso; auto|]. apply IH; auto.
+Qed.
+
+Lemma chain_ok_tail0 (mm : kmem) a l : chain_ok mm a l -> nnext mm (qtail mm 0%nat) = O.
+Proof.
+  revert a. induction l as [|[w n'] r IH]; intros a; cbn.
+  - intros [H ->]. exact H.
+  - intros [_ H]. eauto.
+Qed.
+
+Lemma chain_ok_snoc (mm : kmem) a l u n :
+  chain_ok mm a l -> nnext mm n = O -> chain_ok (set_qtail mm 0 n) a (l ++ [(u, n)]).
+Proof.
+  intros H Hn. revert a H. induction l as [|[w n'] r IH]; intros a; cbn.
+  - intros [H _]. rewrite ?upd_same. auto.
+  - intros [H1 H2]. split; [exact H1|]. apply IH. exact H2.
+Qed.
+
+Lemma invC_frame_gq x' :
+  role x' = role x -> debt x' = debt x ->
+  (forall u n, In (u, n) (gq x') -> role x u = Announced) ->
+  word (mem (base x')) 0%nat = word m 0%nat -> nthr (base x') = nthr (base x) ->
+  InvC x'.
+Proof.
+  intros Er Ed Hq Ew En. pose proof (I_C x HI) as C.
+  assert (E1 : nown x' = nown x) by (unfold nown; rewrite Er, En; reflexivity).
+  assert (E2 : nann x' = nann x) by (unfold nann; rewrite Er, En; reflexivity).
+  destruct C. constructor; rewrite ?E1, ?E2, ?Er, ?Ed, ?Ew, ?En; auto.
+Qed.
 End Steps.
